@@ -2147,13 +2147,17 @@ class Context:
         )
 
     def _set_peer_certificate(self, certificate: Certificate) -> None:
-        self._peer_certificate = x509.load_der_x509_certificate(
-            certificate.certificates[0][0]
-        )
-        self._peer_certificate_chain = [
-            x509.load_der_x509_certificate(certificate.certificates[i][0])
-            for i in range(1, len(certificate.certificates))
-        ]
+        if not certificate.certificates:
+            raise AlertDecodeError("Certificate message contains no certificate")
+        try:
+            peer_certificates = [
+                x509.load_der_x509_certificate(entry[0])
+                for entry in certificate.certificates
+            ]
+        except ValueError:
+            raise AlertBadCertificate("Unable to parse the peer certificate")
+        self._peer_certificate = peer_certificates[0]
+        self._peer_certificate_chain = peer_certificates[1:]
 
     def _set_state(self, state: State) -> None:
         if self.__logger:
